@@ -44,6 +44,8 @@ def endings():
         for up in ((-1, 0, 2) if pub == 'none' else (-1,)):  # a deaf responder never grants credit: only a requester without publisher terminates
             E.append(('channel-%s-up%d' % (pub, up), dict(kind='channel', down=0, up=up, pub=pub, credit='max',
                                                          up_ending='flag' if up == 2 else 'complete')))
+    E.append(('stream-cancel-in-on_subscribe', dict(kind='stream', down=2, pub='gen', cancel_after=-1, ending='flag')))
+    E.append(('channel-cancel-in-on_subscribe', dict(kind='channel', down=2, up=-1, pub='gen', cancel_after=-1, ending='flag')))
     E.append(('channel-raise', dict(kind='channel', down=1, up=1, pub='raise')))
     E.append(('fnf', dict(kind='fnf')))
     E.append(('push', dict(kind='push')))
